@@ -148,7 +148,7 @@ def accelerator_rule(ctx, repo):
                 ok = False
                 break
         if name in SHAPE_EXCEPTIONS:
-            ctx.ok({'accelerator': name, 'skipped': SHAPE_EXCEPTIONS[name]})
+            ctx.limit('accelerator ' + name, 'not decided: ' + SHAPE_EXCEPTIONS[name])
             continue
         if not ok:
             ctx.limit('accelerator ' + name, 'loop shape not followed by the simple path model')
